@@ -37,7 +37,7 @@ static void sample(const char *kind, const void *in, size_t inlen, const char *v
 /* encode x (n bytes) with libjwt, compare with reference, decode back */
 static void check_enc(const unsigned char *x0, size_t n)
 {
-	char *dst = NULL, ref[90000 * 4 / 3 + 16];
+	char *dst = NULL, ref[300000 * 4 / 3 + 16];
 	int len, dl = -7;
 	size_t rl = vh_b64u_enc(x0, n, ref);
 	/* exact-size heap copy without terminator, ending flush with the block: ASan sees a one-byte over-read */
@@ -64,7 +64,7 @@ static void check_enc(const unsigned char *x0, size_t n)
 /* judge jwt_base64uri_decode on NUL-free text s (n bytes) */
 static void check_dec(const char *s, size_t n)
 {
-	static unsigned char refb[90000];
+	static unsigned char refb[300000];
 	int dl = -7;
 	long rl = vh_b64u_dec(s, n, refb);
 	unsigned char *got;
@@ -83,7 +83,7 @@ static void check_dec(const char *s, size_t n)
 		cls_seen[0]++;
 	} else if (memchr(s, '=', n) == NULL && rl > 0) {
 		/* pure alphabet text: canonical iff re-encoding gives the same text (modulo alphabet) */
-		static char re[90000 * 4 / 3 + 16];
+		static char re[300000 * 4 / 3 + 16];
 		size_t el = vh_b64u_enc(refb, (size_t)rl, re);
 		int canon = el == n;
 		for (size_t i = 0; canon && i < n; i++) {
@@ -243,8 +243,8 @@ int main(int argc, char **argv)
 		}
 	} else if (!strcmp(a.mode, "rand")) {
 		/* long strings: encode/decode round trip of random bytes, and decode of random text */
-		static unsigned char x[70000];
-		static char s[70000];
+		static unsigned char x[300000];
+		static char s[300000];
 		static const char A64[] = "ABCDEFGHIJKLMNOPQRSTUVWXYZabcdefghijklmnopqrstuvwxyz0123456789-_";
 		for (long i = 0; i < a.n; i++) {
 			size_t n;
@@ -252,7 +252,8 @@ int main(int argc, char **argv)
 			if (!vh_mine(&a, i)) continue;
 			vh_rng_seed(&r, a.seed, 5000 + (uint64_t)i);
 			kind = (int)vh_below(&r, 4);
-			switch (vh_below(&r, 4)) {
+			switch (vh_below(&r, 40) == 0 ? 9 : vh_below(&r, 4)) {
+			case 9: n = 65530 + vh_below(&r, 200000); break;	/* beyond 64 KiB */
 			case 0: n = vh_below(&r, 16); break;
 			case 1: n = vh_below(&r, 300); break;
 			case 2: n = 4090 + vh_below(&r, 20); break;
